@@ -21,7 +21,9 @@ RULE_B = (' (b) simulated sessions (schedule-owning kernel, vf/sim): four bundle
           'and playing policies play 1-3 boards against the Server under a generated thread schedule; every client must '
           'return normally when the server does, and per board its Client.bidding_phase() contract/declarer and its '
           'ObservedPlayingPhase at the end of the board (history, counts, trick number) must equal the server\'s log. '
-          'Non-trivial (b) = session with a played board; distinct by scenario hash.')
+          'Non-trivial (b) = session with a played board; distinct by scenario hash. A few sessions per run (12 quick / '
+          '480 thorough) are repeated with the same policies on REAL threads and REAL loopback sockets: same replica oracle, and '
+          'the log must be byte-identical to the simulated run.')
 RULE = RULE_A + RULE_B
 ASSUMPTIONS = ['observers are fed exactly the public play sequence; dummy hand is disclosed after the first card',
                'part (b): see DESIGN.md section 4 for the fidelity assumptions of the simulation kernel']
@@ -99,6 +101,8 @@ def run_shard(spec, seed, tier, stats):
 
 def check_session(scenario, schedule, stats=None, policy=None, **kw):
     from vf.props import _session
+    if kw.get('real_sockets'):
+        return _session.check_bundled_real(scenario, policy, stats)
     return _session.check_bundled(scenario, schedule, policy, stats)
 
 
